@@ -23,10 +23,24 @@ import (
 )
 
 type C15Pkg struct {
-	Key    string `json:"key"`
-	Origin string `json:"origin"`
-	PerOp  int    `json:"per_op"`  // valid requests captured per operation
-	Muts   int    `json:"mutants"` // PRNG mutants per captured request (on top of the systematic ones)
+	Key    string     `json:"key"`
+	Origin string     `json:"origin"`
+	PerOp  int        `json:"per_op"`           // valid requests captured per operation
+	Muts   int        `json:"mutants"`          // PRNG mutants per captured request (on top of the systematic ones)
+	Probes []C15Probe `json:"probes,omitempty"` // operations as the document declares them (method, path, parameters)
+}
+
+// C15Param / C15Probe: the declaration of one operation, read from the document by the parent.
+type C15Param struct {
+	Name string `json:"name"`
+	In   string `json:"in"`
+}
+
+type C15Probe struct {
+	Method       string     `json:"method"`
+	Path         string     `json:"path"`
+	Params       []C15Param `json:"params,omitempty"`
+	ContentTypes []string   `json:"content_types,omitempty"`
 }
 
 type C15Data struct {
@@ -539,6 +553,86 @@ func c15Pkg(r *ev.Run, pc *C15Pkg) error {
 			}
 		}
 	}
+	// 5. parameter probes: requests synthesised from the document's declarations, independent of the generated client
+	probeVals := []string{"a", "1", "a,b", "a|b", "a b", "k,v", "k=v", "", ".a.b", ";t=a", "true", "[1]", `{"a":1}`}
+	for _, pb := range pc.Probes {
+		fill := func(val string) string {
+			p := pb.Path
+			for _, q := range pb.Params {
+				if q.In == "path" {
+					p = strings.ReplaceAll(p, "{"+q.Name+"}", url.PathEscape(val))
+				}
+			}
+			return p
+		}
+		build := func(path string, query []string, hdr [][2]string, cookies []string, ct, body string) []byte {
+			var b bytes.Buffer
+			target := path
+			if len(query) > 0 {
+				target += "?" + strings.Join(query, "&")
+			}
+			fmt.Fprintf(&b, "%s %s HTTP/1.1\r\nHost: verif.local\r\n", pb.Method, target)
+			for _, h := range hdr {
+				fmt.Fprintf(&b, "%s: %s\r\n", h[0], h[1])
+			}
+			if len(cookies) > 0 {
+				fmt.Fprintf(&b, "Cookie: %s\r\n", strings.Join(cookies, "; "))
+			}
+			if ct != "" {
+				fmt.Fprintf(&b, "Content-Type: %s\r\n", ct)
+			}
+			fmt.Fprintf(&b, "Content-Length: %d\r\n\r\n%s", len(body), body)
+			return b.Bytes()
+		}
+		ct, body := "", ""
+		if len(pb.ContentTypes) > 0 {
+			ct = pb.ContentTypes[0]
+			if strings.Contains(ct, "json") {
+				body = "{}"
+			}
+		}
+		for vi, val := range probeVals {
+			// every parameter set to the same text
+			var query []string
+			var hdr [][2]string
+			var cookies []string
+			for _, q := range pb.Params {
+				switch q.In {
+				case "query":
+					query = append(query, url.QueryEscape(q.Name)+"="+url.QueryEscape(val))
+				case "header":
+					if val != "" {
+						hdr = append(hdr, [2]string{q.Name, val})
+					}
+				case "cookie":
+					cookies = append(cookies, q.Name+"="+url.QueryEscape(val))
+				}
+			}
+			pv := val
+			if pv == "" {
+				pv = "a"
+			}
+			serve(build(fill(pv), query, hdr, cookies, ct, body), nil, "param-probe", false)
+			if vi > 3 {
+				continue
+			}
+			// one parameter at a time, repeated keys, bracketed keys
+			for _, q := range pb.Params {
+				switch q.In {
+				case "query":
+					n := url.QueryEscape(q.Name)
+					for _, qs := range [][]string{{n + "=" + url.QueryEscape(val)}, {n + "=" + url.QueryEscape(val), n + "=b"}, {n + "[k]=" + url.QueryEscape(val)}, {n}, {"k=" + url.QueryEscape(val)}} {
+						serve(build(fill("a"), qs, nil, nil, ct, body), nil, "param-probe", false)
+					}
+				case "header":
+					serve(build(fill("a"), nil, [][2]string{{q.Name, val}}, nil, ct, body), nil, "param-probe", false)
+					serve(build(fill("a"), nil, [][2]string{{q.Name, val}, {q.Name, "b"}}, nil, ct, body), nil, "param-probe", false)
+				case "cookie":
+					serve(build(fill("a"), nil, nil, []string{q.Name + "=" + url.QueryEscape(val)}, ct, body), nil, "param-probe", false)
+				}
+			}
+		}
+	}
 	return nil
 }
 
@@ -633,7 +727,9 @@ func c15Mutants(raw []byte, rng *ev.Rand, n int) []c15Mut {
 	}
 	add(setHeader("Content-Type", "\x00drop", body), "content-type-dropped")
 	if !chunked {
-		for _, cl := range []string{"0", "-1", "99999999", "18446744073709551616", "abc", fmt.Sprint(len(body) + 1), fmt.Sprint(len(body) / 2)} {
+		for _, cl := range []string{"0", "-1", "99999999", "18446744073709551616", "abc", fmt.Sprint(len(body) + 1), fmt.Sprint(len(body) / 2),
+			// lengths net/http accepts (int64) but no buffer can hold: a server that sizes a buffer from the declared length
+			"2147483648", "4611686018427387904", "9223372036854775807"} {
 			add(setHeader("Content-Length", cl, body), "content-length")
 		}
 		// body truncated at every prefix length (up to 64) and with trailing bytes
